@@ -181,3 +181,46 @@ def none_where_int(a: int) -> int:
     if a > 0:
         return None
     return a
+
+
+def match_capture(a: int) -> int:
+    match a:
+        case 1:
+            return 0
+        case other:
+            return other
+
+
+def match_guard(a: int) -> int:
+    match a:
+        case 1 if a > 0:
+            return 0
+    return 1
+
+
+def is_plain_int(a: int, b: int) -> bool:
+    return a is b
+
+
+class Counter:
+    STORE: dict[int, int] = {}
+
+    @classmethod
+    def bump_readonly(cls, k: int) -> int:
+        cls.STORE[k] = 1
+        return k
+
+    @classmethod
+    def loop_store(cls, k: int) -> int:
+        while k > 0:
+            cls.STORE[k] = k
+            k -= 1
+        return k
+
+
+def break_in_loop(a: int) -> int:
+    while a > 0:
+        if a == 5:
+            break
+        a -= 1
+    return a
